@@ -35,10 +35,14 @@ class Scheduler(iolayer.Consumer):
         self.visible = visible or (lambda ev: not ev.resource.startswith(PRIVATE))
         self.trace: list[str] = []
         self.hung = None
+        self.by_full: dict[str, dict] = {}
+        self.step_timeout = STEP_TIMEOUT
 
     # -- actor side ------------------------------------------------------------------------------------------------
     def before(self, ev):
-        st = self.threads.get(ev.actor)
+        # actors are registered under a name that is unique to this scheduler instance, so a thread left over from an earlier
+        # (timed-out) execution in the same worker process can never take part in this one
+        st = self.by_full.get(ev.actor)
         if st is None or not self.visible(ev):
             return
         st['label'] = ev.label()
@@ -48,8 +52,7 @@ class Scheduler(iolayer.Consumer):
 
     def yield_point(self, label):
         """Explicit scheduling point from harness code (e.g. between two reads of a lazily consumed bulk reader)."""
-        name = iolayer.get_actor()
-        st = self.threads.get(name)
+        st = self.by_full.get(iolayer.get_actor())
         if st is None:
             return
         st['label'] = label
@@ -64,9 +67,12 @@ class Scheduler(iolayer.Consumer):
     def spawn(self, name, fn):
         st = {'sem': threading.Semaphore(0), 'done': False, 'exc': None, 'label': 'start', 'events': 0}
 
+        full = f'{name}@{id(self)}'
+        self.by_full[full] = st
+
         def run():
             st['sem'].acquire()
-            iolayer.set_actor(name)
+            iolayer.set_actor(full)
             try:
                 fn()
             except BaseException as exc:  # pylint: disable=broad-except
@@ -99,8 +105,8 @@ class Scheduler(iolayer.Consumer):
             self.trace.append(f'{n}:{self.threads[n]["label"]}')
             prev = n
             self.threads[n]['sem'].release()
-            if not self.main.acquire(timeout=STEP_TIMEOUT):
-                self.hung = f'actor {n} did not reach its next scheduling point within {STEP_TIMEOUT}s after {self.threads[n]["label"]}'
+            if not self.main.acquire(timeout=self.step_timeout):
+                self.hung = f'actor {n} did not reach its next scheduling point within {self.step_timeout}s after {self.threads[n]["label"]}'
                 raise Hang(self.hung)
 
 
@@ -134,10 +140,12 @@ class Harness:
         pass
 
 
-def execute(harness: Harness, choices):
+def execute(harness: Harness, choices, step_timeout=None):
     """One execution under the given choice sequence. Returns dict(points, viol, outcome, trace)."""
     ctx = harness.setup()
     sched = Scheduler(choices)
+    if step_timeout:
+        sched.step_timeout = step_timeout
     viol = []
     try:
         for name, fn in harness.actors(ctx, sched):
@@ -177,6 +185,10 @@ def _exec_task(arg):
     out = []
     for prefix in prefixes:
         r = execute(h, prefix)
+        if any(c == 'hang' for c, _ in r['viol']):
+            # a step that did not come back in time: run the same schedule once more with a much longer allowance, so that a slow
+            # (heavily loaded) machine cannot turn into a violation; only a reproducible hang is reported
+            r = execute(h, prefix, step_timeout=STEP_TIMEOUT * 10)
         out.append((prefix, r['points'], r['viol'], r['outcome'], r['trace'] if r['viol'] else None, r['events']))
     return out
 
